@@ -279,17 +279,23 @@ BLK_ASSUME = ['CdnsEncoder / CdnsDecoder replaced by the item-level token model 
               'compiled with -fno-inline so that nested calls stay calls']
 
 
-def blk_obl(kind, name, tiers=('quick', 'thorough'), maxm=3, timeout=900, canon=False):
-    d = ['BLK_MAXM=%d' % maxm] + (['BLK_CANON=1'] if canon else [])
-    us = {r'4readERNS_11CdnsDecoderE|10read_arrayE': (20 if canon else maxm + 2)} if kind == 'r' else ()
-    return Obl('%s_%s%s' % (kind, name, '' if kind == 'w' else ('_canon' if canon else '_m%d' % maxm)), 'blk.cpp', 'noctor:h_%s_%s' % (kind, name), unwind=24, defines=d, tiers=tiers, timeout=timeout,
-               redirect=BLK_REDIRECT, opt='-O1 -fno-inline', mem_gb=(30 if timeout > 2000 else 16), unwindset=us,
-               desc=('write(): one well-formed item, returned size == bytes produced, item == RFC 8618 encoding (all presence subsets, full-width integers)' if kind == 'w' else
-                     'read(): reference encoding with members in any order, definite/indefinite, <= 2 unknown members, symbolic cut point: exact value back / CdnsDecoderEnd'),
-               bounds={'members per map (reader)': '<= %d' % maxm, 'strings': '<= 3 bytes', 'lists': '0..2 entries', 'integers': 'full declared width'}, functions=BLK_FUNCS)
+def blk_obl(kind, name, tiers=('quick', 'thorough'), maxm=3, timeout=900, canon=False, form=0):
+    d = ['BLK_MAXM=%d' % maxm] + (['BLK_CANON=%d' % int(canon)] if canon else []) + (['BLK_FORM=%d' % form] if canon == 2 else [])
+    # map loops: one iteration per member (+ break + exit); list loops: lists hold <= 2 entries
+    us = ({r'4readERNS_11CdnsDecoderE': 15, r'10read_arrayE': 4} if canon else {r'4readERNS_11CdnsDecoderE|10read_arrayE': maxm + 2}) if kind == 'r' else ()
+    suffix = '' if kind == 'w' else ({1: '_canon', 2: '_directed_f%d' % form}[int(canon)] if canon else '_m%d' % maxm)
+    desc = {0: 'read(): reference encoding with members in any order, definite/indefinite, <= 2 unknown members, symbolic cut point: exact value back / CdnsDecoderEnd',
+            1: 'read(): every member present, ascending key order, definite/indefinite, symbolic cut point: exact value back / CdnsDecoderEnd',
+            2: 'read(): directed run: every member present with symbolic values (full-width integers, symbolic strings/list items), ascending key order, complete item, '
+               'length form fixed per obligation (map %s, lists %s): every member comes back in its own member' % (('definite', 'indefinite')[form & 1], ('definite', 'indefinite')[(form >> 1) & 1])}[int(canon)]
+    return Obl('%s_%s%s' % (kind, name, suffix), 'blk.cpp', 'noctor:h_%s_%s' % (kind, name), unwind=24, defines=d, tiers=tiers, timeout=timeout,
+               redirect=BLK_REDIRECT, opt='-O1 -fno-inline', mem_gb=(30 if timeout > 2000 else 16), unwindset=us, extra=(('--object-bits', '12') if canon == 2 else ()),
+               desc=('write(): one well-formed item, returned size == bytes produced, item == RFC 8618 encoding (all presence subsets, full-width integers)' if kind == 'w' else desc),
+               bounds={'members per map (reader)': ('all, canonical order' if canon else '<= %d' % maxm), 'strings': '<= 3 bytes', 'lists': '0..2 entries', 'integers': 'full declared width'}, functions=BLK_FUNCS)
 
 
 BLK_MIN_M = {'storagehints': 4, 'storageparameters': 6, 'aec': 4, 'filepreamble': 4}      # structures with more mandatory members than the default bound
+BLK_DIRECTED = {'qrsig', 'queryresponse', 'blockstatistics', 'filepreamble', 'malformedmessage', 'mmd', 'rr', 'aec', 'blockparameters', 'storagehints'}   # directed (all members, canonical order) runs
 BLK_BIG = {'qrsig', 'queryresponse', 'blockstatistics'}    # many cases per loop iteration: smaller member bound in the quick tier
 
 
@@ -300,7 +306,15 @@ def blk_set(kinds, names):
             if k == 'w' and n in BLK_W:
                 out.append(blk_obl('w', n))
             if k == 'r' and n in BLK_R:
+                if n in BLK_DIRECTED and n not in ('storageparameters', 'collectionparameters'):
+                    for form in (0, 3):
+                        out.append(blk_obl('r', n, tiers=('quick',), canon=2, form=form, timeout=900))
                 if n in ('storageparameters', 'collectionparameters'):
+                    # directed: every member present, canonical order, complete item (quick); + symbolic cut (thorough)
+                    for form in (0, 3):
+                        out.append(blk_obl('r', n, tiers=('quick',), canon=2, form=form, timeout=900))
+                    for form in (1, 2):
+                        out.append(blk_obl('r', n, tiers=('thorough',), canon=2, form=form, timeout=900))
                     # every member present, canonical order, definite/indefinite, symbolic cut
                     out.append(blk_obl('r', n, tiers=('thorough',), canon=True, timeout=5400))
                 if n in ('storageparameters', 'collectionparameters', 'filepreamble'):
@@ -444,3 +458,27 @@ PROPS['C10']['obligations'] = PROPS['C10']['obligations'] + EXP_ROT[:1] + EXP_BU
 PROPS['C13']['obligations'] = PROPS['C13']['obligations'] + EXP_ROT + [EXP_BUF[0]]
 PROPS['C13']['explanation'] = ('Rotation at three layers: exporter (old output closed by one BREAK or untouched, counter reset, carried-over records kept, next block writes a header with all parameter sets), '
                                'encoder (everything buffered reaches the old sink before the writer rotates) and writers (a rotation request of the wrong kind is refused, not ignored).')
+
+
+# ---- C04: generic record -> block under symbolic hint masks (harness/hint.cpp, real block.cpp add_* bodies on model containers) -------------------
+HINT_FUNCS = ['CDNS::CdnsBlock::add_question_response_record(const GenericQueryResponse&, ...)', 'CDNS::CdnsBlock::add_malformed_message(const GenericMalformedMessage&, ...)',
+              'CDNS::CdnsBlock::add_address_event_count(const GenericAddressEventCount&, ...)', 'CDNS::CdnsBlock::add_ip_address / add_qr_signature / add_malformed_message_data / add_question_response_record(const QueryResponse&, ...)',
+              'CDNS::BlockTable<T>::add / find / operator[] (model unordered_map/deque)', 'CDNS::hash_value overloads (block_table.h)']
+
+
+def hint_obl(name, entry, desc, defines=(), tiers=('quick', 'thorough'), timeout=900, mem_gb=16):
+    return Obl(name, 'hint.cpp', 'noctor:' + entry, unwind=6, unwindset=TBL_US, defines=list(defines), tiers=tiers, timeout=timeout, mem_gb=mem_gb, desc=desc,
+               bounds={'hint masks': 'all 2^32 x 2^32 x 2^8 x 2^8 values (symbolic)', 'records per history': '1 (address events, malformed messages: 2)', 'strings': '<= 2 bytes',
+                       'max_block_items': '0..3', 'RR lists / names / class-type of the generic record': 'absent (outside the bound)'}, functions=HINT_FUNCS)
+
+
+PROPS['C04'] = {
+    'obligations': [hint_obl('hint_aec', 'h_hint_aec', 'add_address_event_count under every other-data hint mask: stored iff the bit is set; nothing reaches the address table otherwise; repeated key', timeout=1500),
+                    hint_obl('hint_qr_g1', 'h_hint_qr', 'add_question_response_record, every hint mask, record scalars + client address + time symbolic: member present iff bit set and value given, values kept, address table holds only referenced entries', defines=['HINT_GROUP=1'], timeout=1500),
+                    hint_obl('hint_qr_g2', 'h_hint_qr', 'add_question_response_record, every hint mask, signature members + server address symbolic: signature stored iff its bit is set, member present iff bit set and value given', defines=['HINT_GROUP=2'], timeout=2400, mem_gb=30),
+                    hint_obl('hint_mm', 'h_hint_mm', 'add_malformed_message under every other-data mask: stored iff the bit is set, members/tables exact, earliest time', tiers=('thorough',), timeout=3600, mem_gb=30),
+                    hint_obl('hint_qr_all', 'h_hint_qr', 'add_question_response_record with every scalar member symbolic at once', defines=['HINT_GROUP=0'], tiers=('thorough',), timeout=5400, mem_gb=30)],
+    'explanation': 'placeholder',
+    'assumptions': ['model containers (stubs/) in place of libstdc++', 'CRC-32C intrinsics: mixing model (hash values are not the subject)'],
+    'translation_validation': True,
+}
